@@ -10,7 +10,17 @@ class P(vlib.Prop):
             "(names/versions over an alphabet with characters outside [a-zA-Z0-9.-], provoked collisions, long lists) with and without "
             "package-embedded SBOMs of random relationship graphs written to an in-memory filesystem under var/lib/db/sbom; the emitted "
             "JSON is parsed and handed to Coq; index stage: the real GenerateIndex; repl/copy stages: replacePackage and copySBOMElements "
-            "on random small documents. A case is non-trivial when the installed set / image list / todo set is non-empty (ident: when the "
+            "on random small documents; e2e stage: a real `apko build` through the CLI against a synthetic signed repository (odd names/versions, "
+            "packages recorded as noarch and for the other architecture, embedded SBOMs found by each candidate file name incl. the <name>.spdx.json "
+            "fallback, single/multi-layer, one/two architectures): layers, image and index digests are recomputed from the OCI layout blobs, the "
+            "installed database / os-release / embedded SBOMs are read from the flattened layers, the emitted sbom-<arch>.spdx.json and "
+            "sbom-index.spdx.json are compared with the model run THROUGH the provenance model of pkg/build/sbom.go (Model/SbomProv.v over what "
+            "goextract traced) and judged by the validators against the directly written expected input; lic stage: mergeLicensingInfos on "
+            "hand-picked and random (source, target) pairs (conflicts, duplicates, first-of-id decides) and Generate on embedded documents with "
+            "hasExtractedLicensingInfos (shared infos, conflicting texts, unused documents, no target, failing copy). The generate and e2e stages "
+            "print the distribution of embedded-SBOM shapes (candidate file name, described / target / same-name element counts, graph depth, "
+            "copy sweeps, cycles, File- relationships, undefined references) and the generate stage refuses to run if its corpus lacks one of them. "
+            "A case is non-trivial when the installed set / image list / todo set / source infos are non-empty (ident: when the "
             "output differs from the input); distinct = distinct case terms.")
     stages = (
         dict(name="ident", cmd="c11", args=lambda t, s: ["-stage", "ident"]),
@@ -24,19 +34,24 @@ class P(vlib.Prop):
     assumptions = (
         "names, versions and embedded documents are valid UTF-8 (encoding/json replaces invalid bytes by U+FFFD on the way out); stringToIdentifier itself is checked on arbitrary bytes",
         "package names contain no '/' (the embedded-SBOM lookup is modelled as a map from file name to content)",
-        "embedded documents carry no hasExtractedLicensingInfos (mergeLicensingInfos is not modelled) and their own element ids are valid SPDX ids",
-        "the digests handed to Generate/GenerateIndex are the real ones (pkg/build/sbom.go passes the manifest's layer descriptors and img.Digest(); C06/C12 cover those)",
+        "the embedded documents' own element ids are valid SPDX ids; licence references inside packages (licenseConcluded/licenseDeclared) are not modelled, only the extracted licensing infos they point to",
+        "img.Manifest().Layers / img.Digest() are the manifest and digest of the image that is written (C06/C12 cover those; the e2e stage recomputes them from the layout blobs); that GenerateImageSBOM/GenerateIndexSBOM hand them over unchanged is modelled (Model/SbomProv.v), read from the source by goextract and proved (c11_image_sbom_inputs, c11_index_sbom_inputs)",
+        "the images map of GenerateIndexSBOM has pairwise distinct architecture strings (it is a Go map keyed by architecture); under that the order of the index document does not depend on map iteration (c11_index_sbom_inputs)",
         "Go ranges over the targetElementIDs map in an arbitrary order: the model takes the order as a parameter, theorems quantify over it, the harness collects every outcome of 200 runs when a document describes several elements",
     )
     level_text = ("Theorems c11_* hold for every input (unbounded package lists, names, embedded graphs, every map iteration order) about an executable model of "
                   "spdx.go whose identifier alphabet is the regular expression goextract reads from the source on every run; the model is tied to the code by "
-                  "differential comparison of whole documents (packages with id/name/version/checksums, relationships, described ids) and the verified validators "
-                  "(ids unique, id syntax, references resolve, agreement with the installed list, digests) are run on the documents the real code emits.")
-    level_note = ("trusted: Coq kernel, goextract, Go harness/printer, encoding/json; modelled not verified: the Go text of spdx.go, Go regexp (maximal runs of a character class), "
-                  "apkfs.MemFS lookups; correspondence is differential testing, not proof")
+                  "differential comparison of whole documents (packages with id/name/version/checksums, relationships, described ids, extracted licensing infos) and the verified validators "
+                  "(ids unique, id syntax, references resolve, agreement with the installed list, digests, licensing infos preserved) are run on the documents the real code emits. "
+                  "The inputs of the generator are inside the model: c11_image_sbom_inputs / c11_all_installed_handed_over / c11_index_sbom_inputs state that pkg/build/sbom.go hands over the built "
+                  "image's digest, its manifest's layers, every installed paragraph whatever its architecture field, and every image of the index in architecture order; they compute with the "
+                  "assignment sources goextract traces in sbom.go on every run. mergeLicensingInfos: union keyed by id, target first, every source info kept with its text, failure exactly on a conflict.")
+    level_note = ("trusted: Coq kernel, goextract (incl. its tracing of single-definition locals in sbom.go), Go harness/printer, encoding/json; modelled not verified: the Go text of spdx.go, "
+                  "Go regexp (maximal runs of a character class), apkfs.MemFS lookups, sort.Slice (any sorted permutation), GetInstalled / Manifest / Digest themselves; correspondence is differential testing, not proof")
     design_ref = "DESIGN.md 7 C11"
     modelled_not_verified = ("stringToIdentifier, Generate, ProcessInternalApkSBOM, copySBOMElements, replacePackage, the final de-duplication and GenerateIndex are "
-                             "modelled by hand (Model/Sbom.v); validIDCharsRe is regenerated from spdx.go; purls, licences, suppliers, creation info, "
-                             "mergeLicensingInfos and the inputs' provenance in pkg/build/sbom.go are not modelled")
+                             "modelled by hand (Model/Sbom.v), mergeLicensingInfos and its place in the apk loop in Model/SbomLic.v; validIDCharsRe is regenerated from spdx.go; the provenance of "
+                             "the generator's inputs in pkg/build/sbom.go is regenerated (Generated/C11Prov.v) and interpreted by Model/SbomProv.v; purls, licence expressions of packages, "
+                             "suppliers, creation info, document name, readReleaseData's parsing and the SBOM file names are not modelled")
 
 PROP = P()
